@@ -1,10 +1,10 @@
 (* C02 - the user-level theorems about Park (src/park.rs), derived from the invariants Inv1..Inv4
-   (ParkInv1..4.v) of the model ParkModel.v, for the code as it is in /repo: [stepF = step true true].
+   (ParkInv1..4.v) of the model ParkModel.v, for the code as it is in /repo: [stepF = step true true true].
 
    (i)   single resumption            exactly_one_place, holder_is_actor (+ ParkInv1: single_resumption ...)
    (ii)  no lost wake-up              no_lost_wakeup / kernel_self_wake / unparker_takes / quiescent_no_token,
                                       park_with_token_not_stuck (progress form, every control point of the call),
-                                      no_lost_cancel_partial, no_lost_timeout, quiescent_* corollaries,
+                                      no_lost_cancel, no_lost_timeout, quiescent_* corollaries,
                                       quiescent_stuck / stuck_quiescent (Quiescent = no internal transition enabled)
    (iii) unpark before park           token_first_never_suspends, token_first_returns_ok
    (iv)  verdicts                     verdict_ok, verdict_timeout, verdict_canceled (+ _fresh corollaries),
@@ -138,7 +138,7 @@ Qed.
 (* ... and the kernel half, within its next three accesses, takes the coroutine back itself (unless
    somebody else is faster, which is just as good) and then resumes it *)
 Theorem kernel_self_wake s : krecheck (kp s) = true -> slot s = true -> pstate s = true ->
-  exists n s', (n <= 3)%nat /\ run true true s (repeat AK n) = Some s' /\ slot s' = false /\ kholds (kp s') = true.
+  exists n s', (n <= 3)%nat /\ run true true true s (repeat AK n) = Some s' /\ slot s' = false /\ kholds (kp s') = true.
 Proof.
   intros Hk Hs Hp. destruct (kp s) eqn:E; try discriminate Hk.
   - (* KChk *)
@@ -151,29 +151,29 @@ Proof.
   - exists 1%nat. eexists. split; [lia|]. cbn [repeat run step]. unfold kstep. rewrite E, Hs. cbn. auto.
 Qed.
 
-(* cancel: the coroutine is in the slot and its cancel bit is set.  PARTIAL: only for a Park that no
-   kernel half of an EARLIER Blocker of the same coroutine, still in flight, has registered over
-   ([tainted = false]; see cancel_lost_after_stale_set_co in ParkRefute.v for what happens otherwise).
-   Then the kernel half has not yet passed its own check of the cancel bit, or a canceller holds the
-   slot (CTake), or the slot is still registered in Cancel.co and a canceller is about to take it from there. *)
-Theorem no_lost_cancel_partial s : ReachF s -> slot s = true -> cbit s = true -> tainted s = false ->
+(* cancel: the coroutine is in the slot and its cancel bit is set.  Then the kernel half has not yet passed
+   its own check of the cancel bit (after which it takes the coroutine back itself: KC3), or a canceller
+   holds the slot taken from Cancel.co (CTake), or the slot is still registered in Cancel.co and a canceller
+   is about to take it from there.  (Before the repair of F31 this needed the premise that no kernel half of
+   an earlier Blocker had registered over: ParkRefute.cancel_lost_after_stale_set_co_without_fixF31.) *)
+Theorem no_lost_cancel s : ReachF s -> slot s = true -> cbit s = true ->
   match kp s with
-  | KChk | KStake | KSload | KFtake | KSetco | KC3 => True
-  | KCchk | KC1 | KC2 => cco s = CThis \/ exists i, cn s i = CTake
+  | KChk | KStake | KSload | KFtake | KCchk | KC3 => True
   | _ => (exists i, cn s i = CTake) \/ (cco s = CThis /\ exists i, cn s i = CTakeCo) end.
 Proof.
-  intros R Hs Hc Ht. destruct (invs s R) as (_ & _ & _ & I4 & _). exact (w_can s I4 Hs Hc Ht).
+  intros R Hs Hc. destruct (invs s R) as (_ & _ & _ & I4 & _). exact (w_can s I4 Hs Hc).
 Qed.
 
-(* registration: a suspended coroutine whose kernel half is through is registered with its Cancel
-   (or a canceller has just taken the registration and is about to take the coroutine) *)
-Theorem suspended_is_registered_partial s : ReachF s -> slot s = true -> tainted s = false ->
-  match kp s with
-  | KCchk | KC1 | KC2 | KGoff | KIdle => cco s = CThis \/ exists i, cn s i = CTake
-  | _ => True end.
+(* registration: a suspended coroutine that has not been cancelled is registered with its Cancel: the
+   registration (set_co) precedes the publication (wait_co.store) and only a canceller removes it *)
+Theorem suspended_is_registered s : ReachF s -> slot s = true -> cbit s = false -> cco s = CThis.
 Proof.
-  intros R Hs Ht. destruct (invs s R) as (_ & _ & _ & I4 & _). exact (w_reg s I4 Hs Ht).
+  intros R Hs Hc. destruct (invs s R) as (_ & _ & _ & I4 & _). exact (w_reg s I4 Hs Hc).
 Qed.
+
+(* no kernel half of an earlier Blocker can register with the Cancel any more *)
+Theorem no_stale_registration s : ReachF s -> oldk s = 0%nat /\ tainted s = false.
+Proof. intros R. destruct (invs s R) as (I1 & _). destruct (i_dead s I1) as (_ & A & B). auto. Qed.
 
 (* timeout: the coroutine is in the slot in a timed park (the armed duration is not None: with the
    repaired AtomicDuration that is every park_timeout(Some d)).  Then its timer entry [i] (the handle) is
@@ -205,11 +205,10 @@ Proof.
   - rewrite Hu in U. discriminate.
 Qed.
 
-Theorem quiescent_no_cancel_partial s : ReachF s -> Quiescent s ->
-  ~ (slot s = true /\ cbit s = true /\ tainted s = false).
+Theorem quiescent_no_cancel s : ReachF s -> Quiescent s -> ~ (slot s = true /\ cbit s = true).
 Proof.
-  intros R (_ & _ & Hk & _ & _ & Hc & _) (Hs & Hb & Ht).
-  pose proof (no_lost_cancel_partial s R Hs Hb Ht) as W. rewrite Hk in W.
+  intros R (_ & _ & Hk & _ & _ & Hc & _) (Hs & Hb).
+  pose proof (no_lost_cancel s R Hs Hb) as W. rewrite Hk in W.
   destruct W as [(i & C)|(_ & i & C)]; rewrite Hc in C; discriminate.
 Qed.
 
@@ -312,12 +311,11 @@ Proof.
   - exists (AUnTake i). split; [reflexivity|]. destruct (unparker_takes s i b U Hs) as (s' & E & _). exists s'. exact E.
 Qed.
 
-Theorem park_cancelled_not_stuck_partial s : ReachF s -> cbit s = true -> tainted s = false ->
-  in_park (up s) = true -> can_move s.
+Theorem park_cancelled_not_stuck s : ReachF s -> cbit s = true -> in_park (up s) = true -> can_move s.
 Proof.
-  intros R Hb Ht Hp. destruct (slot s) eqn:Hs; [|apply only_the_slot_rests; auto].
+  intros R Hb Hp. destruct (slot s) eqn:Hs; [|apply only_the_slot_rests; auto].
   destruct (invs s R) as (I1 & I2 & _ & _ & I5).
-  pose proof (no_lost_cancel_partial s R Hs Hb Ht) as W.
+  pose proof (no_lost_cancel s R Hs Hb) as W.
   assert (KE : kp s <> KIdle -> can_move s).
   { intros N. exists AK. split; [reflexivity|]. apply kernel_enabled; auto. intros X. apply (k_now s I5 X). }
   assert (C1 : (exists i, cn s i = CTake) -> can_move s).
@@ -362,7 +360,7 @@ Qed.
 
 (* ... it returns Ok within two accesses of its own (state.load, state.store(false)), whatever the others do *)
 Theorem token_first_returns_ok s : ReachF s -> tok0 s = true -> in_park (up s) = true ->
-  exists n s', (n <= 2)%nat /\ run true true s (repeat AU n) = Some s' /\
+  exists n s', (n <= 2)%nat /\ run true true true s (repeat AU n) = Some s' /\
                up s' = UIdle /\ lastv s' = Some VOk /\ susp s' = false /\ pstate s' = false.
 Proof.
   intros R H P. destruct (invs s R) as (I1 & _ & I3 & _ & _).
@@ -557,7 +555,7 @@ Proof. intros A B C D. unfold abs, call_deadline. rewrite A, B, C, D. reflexivit
 Lemma verdict_stable s a s' : ReachF s -> stepF s a = Some s' ->
   match up s with UCp2Store | UCp2Swap | URm => True | _ => False end -> para s' = para s.
 Proof.
-  intros R H U. destruct (invs s R) as ([Ipl Ihun Ihcn Ihtm Irun Isusp Iwk [Inn Ine] Ipre Icd] & _).
+  intros R H U. destruct (invs s R) as ([Ipl Ihun Ihcn Ihtm Irun Isusp Iwk [Inn Ine] Ipre Icd ((Id1 & Id2 & Id3 & Id4) & Iok & Itn)] & _).
   destruct a.
   all: step_inv H.
   all: try contradiction.
@@ -575,7 +573,7 @@ Theorem park_refines_blocker s a s' : ReachF s -> stepF s a = Some s' ->
          | None => abs s' = abs s end
   end.
 Proof.
-  intros R H. destruct (invs s R) as ([Ipl Ihun Ihcn Ihtm Irun Isusp Iwk [Inn Ine] Ipre Icd] & _ & I3 & _).
+  intros R H. destruct (invs s R) as ([Ipl Ihun Ihcn Ihtm Irun Isusp Iwk [Inn Ine] Ipre Icd ((Id1 & Id2 & Id3 & Id4) & Iok & Itn)] & _ & I3 & _).
   pose proof (store_tok s I3) as St.
   destruct a.
   all: step_inv H.
@@ -648,8 +646,8 @@ Proof.
 Qed.
 
 (* general schedules reach reachable states *)
-Lemma run_reach_gen f8 f12 l : forall s s', Reach f8 f12 s -> run f8 f12 s l = Some s' -> Reach f8 f12 s'.
+Lemma run_reach_gen f8 f12 f31 l : forall s s', Reach f8 f12 f31 s -> run f8 f12 f31 s l = Some s' -> Reach f8 f12 f31 s'.
 Proof.
   induction l as [|a l IH]; cbn; intros s s' R H; [inversion H; subst; exact R|].
-  destruct (step f8 f12 s a) as [s1|] eqn:E; [|discriminate]. eapply IH; [eapply RS; eauto | exact H].
+  destruct (step f8 f12 f31 s a) as [s1|] eqn:E; [|discriminate]. eapply IH; [eapply RS; eauto | exact H].
 Qed.
